@@ -282,7 +282,6 @@ AgreeDomain(L) ==
   /\ \A i, j \in Idx(L) : ResId(L[i]) = ResId(L[j]) => L[i].rn = L[j].rn
   /\ \A a, b \in ResIds(L) : (a # b /\ a[1] = b[1]) =>
         /\ (FirstLine(L, a) < FirstLine(L, b)) = Before(a, b)
-        /\ ~OnBondSphere(L, a, b)
 
 RKeys(res)  == { <<res[r].ch, res[r].num, res[r].ic, res[r].rn>> : r \in 1..Len(res) }
 AtomSetOf(r) == { r.atoms[a] : a \in 1..Len(r.atoms) }
@@ -301,10 +300,15 @@ SameAtomsAndCoords(L, res) ==
 
 \* SameConnectivity, residue-level reader: is_connected(a, b) was asked for the pairs `queried`
 \* (at least all consecutive ones) and answered yes exactly for `conn`
+\* (a pair whose O3'-P distance is exactly 2.4 A may be answered either way by a reader; that all readings
+\* answer it alike is demanded separately, BoundaryAgree)
 ConnectivityAnswersOK(L, queried, conn) ==
   /\ Adjacent(L) \subseteq queried /\ conn \subseteq queried
-  /\ \A q \in queried : (q \in conn) = Connected(L, q[1], q[2])
+  /\ \A q \in queried : OnBondSphere(L, q[1], q[2]) \/ ((q \in conn) = Connected(L, q[1], q[2]))
 
 \* SameConnectivity, table-level reader: the consecutive pairs inside its connected segments
-SegmentPairsOK(L, pairs) == pairs = { ab \in Adjacent(L) : Connected(L, ab[1], ab[2]) }
+OnSpherePairs(L) == { ab \in Adjacent(L) : OnBondSphere(L, ab[1], ab[2]) }
+SegmentPairsOK(L, pairs) ==
+  /\ pairs \subseteq Adjacent(L)
+  /\ pairs \ OnSpherePairs(L) = { ab \in Adjacent(L) \ OnSpherePairs(L) : Connected(L, ab[1], ab[2]) }
 =============================================================================
